@@ -32,6 +32,7 @@ REQUIRED = ["configs", "requests_delivered", "oracle_address", "oracle_tls", "or
 EXHAUSTIVE = False
 
 PROXIES = [None, "http", "https", "socks5", "socks5h"]
+HOSTS = ["a.test", "2001:db8::7", "10.9.8.7", "a.test"]
 
 
 def build(flavor, proxy, http1, http2, server_alpn, hosts_ports, shared_ctx=None, net=None, origins=None, px=None):
@@ -93,14 +94,16 @@ def judge_request(net, origins, px, proxy, http1, http2, scheme, host, port_eff,
         if tr.target != ("proxy.test", 3128):
             v("proxy-bypassed", f"connect_tcp{tr.target}", ctx)
         if req.via == "forward":
-            want = f"{scheme}://{host}".encode() + (b"" if ctx["port_kind"] == "implicit" else b":%d" % port_eff)
+            uh = f"[{host}]" if ":" in host else host
+            want = f"{scheme}://{uh}".encode() + (b"" if ctx["port_kind"] == "implicit" else b":%d" % port_eff)
             if not req.target.startswith(want + b"/"):
                 v("forward-target-not-the-url", f"{req.target!r} does not start with {want!r}", ctx)
             if tls_wanted:
                 v("tls-origin-forwarded-in-clear", f"{scheme} request forwarded through the proxy instead of tunnelled", ctx)
         else:
             conn = [c for c in px.connects if c["tr"] == req.tr]
-            if not conn or conn[-1]["target"] != f"{host}:{port_eff}".encode():
+            uh = f"[{host}]" if ":" in host else host
+            if not conn or conn[-1]["target"] != f"{uh}:{port_eff}".encode():
                 v("wrong-connect-target:tunnel", f"CONNECT {conn[-1]['target'] if conn else None!r} for {host}:{port_eff}", ctx)
     else:
         if tr.target != ("socks.test", 1080):
@@ -166,15 +169,19 @@ def run_matrix(case):
     flavor = case["flavor"]
 
     async def main():
-        for cfg in case["configs"]:
+        for ci, cfg in enumerate(case["configs"]):
             scheme, port_kind, proxy, http1, http2, server_alpn, sni = cfg
             dflt = {"http": 80, "https": 443, "ws": 80, "wss": 443}[scheme]
             port_eff = dflt if port_kind in ("implicit", "explicit-default") else dflt + 8000
-            net, origins, px, pool, api = build(flavor, proxy, http1, http2, server_alpn, [("a.test", port_eff)])
+            # the host is a name, an IPv4 literal or an IPv6 literal (bracketed in the URL and in authorities, bare as a
+            # connect address, SOCKS address and TLS server name)
+            host = HOSTS[(ci + case.get("seed", 0)) % len(HOSTS)]
+            uhost = f"[{host}]" if ":" in host else host
+            net, origins, px, pool, api = build(flavor, proxy, http1, http2, server_alpn, [(host, port_eff)])
             cnt["configs"] += 1
-            hostport = "a.test" if port_kind == "implicit" else f"a.test:{port_eff}"
+            hostport = uhost if port_kind == "implicit" else f"{uhost}:{port_eff}"
             ctx = {"scheme": scheme, "port_kind": port_kind, "proxy": proxy, "http1": http1, "http2": http2,
-                   "server_alpn": server_alpn, "sni_hostname": sni, "flavor": flavor}
+                   "server_alpn": server_alpn, "sni_hostname": sni, "flavor": flavor, "host": host}
             delivered = 0
             for i in range(2):
                 tok = f"m{i}"
@@ -182,7 +189,7 @@ def run_matrix(case):
                 ext = {"sni_hostname": "sni.example"} if sni else {}
                 out = await guarded(flavor, lambda: api.request("GET", f"{scheme}://{hostport}/p", headers=[("X-Token", tok)],
                                                                 extensions=ext))
-                if judge_request(net, origins, px, proxy, http1, http2, scheme, "a.test", port_eff, tok,
+                if judge_request(net, origins, px, proxy, http1, http2, scheme, host, port_eff, tok,
                                  "sni.example" if sni else None, cnt, v, ctx):
                     delivered += 1
                 if out.kind != "ok":
